@@ -417,4 +417,520 @@ theorem finv_run {t : Dc.StreamRecv.Trace} (h : FInv t) (evs : List Dc.StreamRec
   | nil => exact h
   | cons e es ih => exact ih (finv_step h e)
 
+/-! ### idle timer invariant -/
+
+/-- while data is still expected: the idle timer is armed at `lastArm + idle_timeout`, there is no
+    error yet -/
+def Armed (r : Recv) (lastArm : Nat) : Prop :=
+  r.state.expectsData = true → r.idleTimer = some (lastArm + r.idleTimeout) ∧ r.error = none
+
+theorem armed_of_not_expects {r : Recv} (h : r.state.expectsData = false) (l : Nat) : Armed r l := by
+  intro h'; rw [h] at h'; cases h'
+
+theorem onError_armed (r : Recv) (e : ErrKind) (b : Bool) (l : Nat) : Armed (onError r e b) l :=
+  armed_of_not_expects (onError_not_expects r e b) l
+
+theorem onReadBuffer_armed {r : Recv} {l : Nat} (h : Armed r l) : Armed (onReadBuffer r) l := by
+  have hf := onReadBuffer_frame r
+  intro hx
+  have := h (hf.2.2.2.1 hx)
+  rw [hf.2.1, hf.2.2.1, hf.1.2.2.2]
+  exact this
+
+theorem dedupe_armed {r : Recv} {l : Nat} (h : Armed r l) (sp : Space) (pn : Nat) : Armed (dedupe r sp pn).1 l := by
+  have hd := dedupe_fields r sp pn
+  intro hx
+  rw [hd.2.2.1] at hx
+  rw [hd.2.2.2.1, hd.2.2.2.2.1, hd.2.1]
+  exact h hx
+
+theorem afterDedupe_armed {r : Recv} {l : Nat} (h : Armed r l) (now : Nat) (p : Packet) :
+    Armed (afterDedupe r now p).1 (if r.state.expectsData || p.off == 0 then now else l) := by
+  have h0 : Armed (armIdle (needsTransmission r) now p) (if r.state.expectsData || p.off == 0 then now else l) := by
+    unfold armIdle
+    by_cases hc : (r.state.expectsData || p.off == 0) = true
+    · have : ((needsTransmission r).state.expectsData || p.off == 0) = true := hc
+      simp only [this, hc, if_true]
+      intro hx
+      have he : r.error = none := by
+        cases hs : r.state.expectsData
+        · have : (updateIdleTimer (needsTransmission r) now).state.expectsData = r.state.expectsData := rfl
+          rw [this, hs] at hx; cases hx
+        · exact (h hs).2
+      exact ⟨rfl, he⟩
+    · have : ¬ ((needsTransmission r).state.expectsData || p.off == 0) = true := hc
+      simp only [this, hc, if_false]
+      intro hx
+      exact h hx
+  unfold afterDedupe
+  cases hctl : p.control with
+  | none => exact h0
+  | undecodable => exact h0
+  | close t c => exact onError_armed _ _ _ _
+
+theorem onIdleExpired_not_expects (r : Recv) : (onIdleExpired r).state.expectsData = false := by
+  unfold onIdleExpired
+  simp only
+  split
+  · rename_i h; simpa using h
+  · exact onError_not_expects _ _ _
+
+/-- the history invariant about the idle timer -/
+structure IInv (t : Dc.StreamRecv.Trace) : Prop where
+  armed : Armed t.recv t.lastArm
+
+theorem iinv_init (now it md w : Nat) : IInv (Dc.StreamRecv.Trace.init now it md w) :=
+  ⟨fun _ => ⟨rfl, rfl⟩⟩
+
+theorem authenticate_armed {r : Recv} {l : Nat} (h : Armed r l) (now : Nat) (p : Packet) :
+    Armed (authenticate r now p).1
+      (if passesFilter r p && (r.state.expectsData || p.off == 0) then now else l) := by
+  unfold authenticate passesFilter
+  by_cases ha : p.authentic = true
+  · simp only [ha, Bool.not_true, Bool.false_eq_true, if_false, Bool.true_and]
+    unfold onCleartext
+    simp only
+    by_cases hf : (dedupe r p.space p.pn).2 = true
+    · simp only [hf, Bool.not_true, Bool.false_eq_true, if_false, Bool.true_and]
+      have := afterDedupe_armed (dedupe_armed h p.space p.pn) now p
+      rw [(dedupe_fields r p.space p.pn).2.2.1] at this
+      exact this
+    · have hf' : (dedupe r p.space p.pn).2 = false := by simpa using hf
+      simp only [hf', Bool.not_false, if_true, Bool.false_and, Bool.false_eq_true, if_false]
+      exact dedupe_armed h p.space p.pn
+  · have ha' : p.authentic = false := by simpa using ha
+    simp only [ha', Bool.not_false, if_true, Bool.false_and, Bool.false_eq_true, if_false]
+    exact h
+
+theorem impl_armed {r : Recv} {l : Nat} (h : Armed r l) (now : Nat) (p : Packet) :
+    Armed (onStreamPacketImpl r now p).1
+      (if passesFilter r p && (r.state.expectsData || p.off == 0) then now else l) := by
+  have ha := authenticate_armed h now p
+  unfold onStreamPacketImpl
+  generalize authenticate r now p = a at ha ⊢
+  obtain ⟨r', e⟩ := a
+  simp only at ha
+  split
+  · cases e with
+    | some e => exact ha
+    | none => exact onError_armed _ _ _ _
+  · cases RefBuf.write r.buf p.off p.data p.fin with
+    | error err => cases e <;> exact ha
+    | ok b =>
+      cases e with
+      | some e => exact ha
+      | none =>
+        simp only
+        apply onReadBuffer_armed
+        intro hx
+        exact ha hx
+
+theorem packet_armed {r : Recv} {l : Nat} (h : Armed r l) (now : Nat) (p : Packet) :
+    Armed (onStreamPacket r now p).1
+      (if passesFilter r p && (r.state.expectsData || p.off == 0) then now else l) := by
+  have hi := impl_armed h now p
+  unfold onStreamPacket
+  generalize onStreamPacketImpl r now p = res at hi ⊢
+  obtain ⟨r', e, c⟩ := res
+  simp only at hi ⊢
+  cases e with
+  | none => exact hi
+  | some e =>
+    simp only
+    split
+    · exact onError_armed _ _ _ _
+    · exact hi
+
+theorem iinv_step {t : Dc.StreamRecv.Trace} (h : IInv t) (ev : Dc.StreamRecv.Ev) : IInv (t.step ev) := by
+  cases ev with
+  | packet now p =>
+    simp only [Dc.StreamRecv.Trace.step]
+    exact ⟨packet_armed h.armed now p⟩
+  | read w =>
+    simp only [Dc.StreamRecv.Trace.step, Dc.StreamRecv.read]
+    refine ⟨onReadBuffer_armed ?_⟩
+    intro hx
+    exact h.armed hx
+  | timeout now last =>
+    simp only [Dc.StreamRecv.Trace.step]
+    refine ⟨?_⟩
+    unfold onTimeout
+    by_cases h1 : timerExpired t.recv.idleTimer now = true
+    · by_cases h2 : timerExpired (some (last + t.recv.idleTimeout)) now = true
+      · simp only [h1, h2, Bool.not_true, Bool.false_eq_true, if_false]
+        exact armed_of_not_expects (onIdleExpired_not_expects _) _
+      · have h2' : timerExpired (some (last + t.recv.idleTimeout)) now = false := by simpa using h2
+        simp only [h1, h2', Bool.not_true, Bool.not_false, Bool.false_eq_true, if_false, if_true, Bool.and_self]
+        intro hx
+        exact ⟨rfl, (h.armed hx).2⟩
+    · have h1' : timerExpired t.recv.idleTimer now = false := by simpa using h1
+      simp only [h1', Bool.not_false, if_true, Bool.false_and, Bool.false_eq_true, if_false]
+      exact h.armed
+
+theorem iinv_run {t : Dc.StreamRecv.Trace} (h : IInv t) (evs : List Dc.StreamRecv.Ev) : IInv (Dc.StreamRecv.run t evs) := by
+  unfold Dc.StreamRecv.run
+  induction evs generalizing t with
+  | nil => exact h
+  | cons e es ih => exact ih (iinv_step h e)
+
+/-- the configured idle timeout never changes -/
+theorem idleTimeout_run (t : Dc.StreamRecv.Trace) (evs : List Dc.StreamRecv.Ev) :
+    (Dc.StreamRecv.run t evs).recv.idleTimeout = t.recv.idleTimeout := by
+  unfold Dc.StreamRecv.run
+  induction evs generalizing t with
+  | nil => rfl
+  | cons e es ih =>
+    rw [List.foldl_cons, ih]
+    cases e with
+    | packet now p => exact (packet_fields t.recv now p).1
+    | read w => exact (onReadBuffer_frame _).1.2.2.2
+    | timeout now last => exact (onTimeout_same _ _ _).2.2.2
+
+/-! ### committed packets are accepted packets -/
+
+theorem committed_passes (r : Recv) (now : Nat) (p : Packet) (h : (onStreamPacket r now p).2.2 = true) :
+    passesFilter r p = true := by
+  unfold onStreamPacket at h
+  unfold passesFilter
+  have : (onStreamPacketImpl r now p).2.2 = true := by
+    generalize onStreamPacketImpl r now p = res at h ⊢
+    obtain ⟨r', e, c⟩ := res
+    cases e <;> simpa using h
+  unfold onStreamPacketImpl at this
+  split at this
+  · generalize authenticate r now p = a at this
+    obtain ⟨r', e⟩ := a
+    cases e <;> simp at this
+  · cases hw : RefBuf.write r.buf p.off p.data p.fin with
+    | error err =>
+      rw [hw] at this
+      generalize authenticate r now p = a at this
+      obtain ⟨r', e⟩ := a
+      cases e <;> simp at this
+    | ok b =>
+      rw [hw] at this
+      cases ha : authenticate r now p with
+      | mk r' e =>
+        rw [ha] at this
+        cases e with
+        | some e => simp at this
+        | none =>
+          unfold authenticate at ha
+          by_cases hau : p.authentic = true
+          · simp only [hau, Bool.not_true, Bool.false_eq_true, if_false] at ha
+            unfold onCleartext at ha
+            simp only at ha
+            by_cases hf : (dedupe r p.space p.pn).2 = true
+            · simp [hau, hf]
+            · have hf' : (dedupe r p.space p.pn).2 = false := by simpa using hf
+              simp only [hf', Bool.not_false, if_true] at ha
+              cases ha
+          · have hau' : p.authentic = false := by simpa using hau
+            simp only [hau', Bool.not_false, if_true] at ha
+            cases ha
+
+/-! ### committed payloads: at most once -/
+
+theorem passes_fresh {r : Recv} {S R : List Nat} (hs : Rel r.streamFilter S) (hr : Rel r.recoveryFilter R)
+    (p : Packet) (h : passesFilter r p = true) :
+    (p.space = .stream → p.pn ∉ S) ∧ (p.space = .recovery → p.pn ∉ R) := by
+  unfold passesFilter at h
+  have hd := (dedupe_fields r p.space p.pn).2.2.2.2.2.1
+  rw [hd] at h
+  simp only [Bool.and_eq_true, decide_eq_true_eq] at h
+  constructor
+  · intro hsp
+    rw [hsp] at h
+    have h1 := (step_sim hs (.insert p.pn)).1
+    simp only [filterOf] at h
+    rw [h.2] at h1
+    by_cases hc : RefWindow.classify ⟨S⟩ p.pn = .ok
+    · exact classify_ok_not_mem hc
+    · rw [ref_step_insert_ne hc] at h1; exact absurd h1.symm hc
+  · intro hsp
+    rw [hsp] at h
+    have h1 := (step_sim hr (.insert p.pn)).1
+    simp only [filterOf] at h
+    rw [h.2] at h1
+    by_cases hc : RefWindow.classify ⟨R⟩ p.pn = .ok
+    · exact classify_ok_not_mem hc
+    · rw [ref_step_insert_ne hc] at h1; exact absurd h1.symm hc
+
+def accOf (t : Dc.StreamRecv.Trace) : Space → List Nat
+  | .stream => t.acceptedStream
+  | .recovery => t.acceptedRecovery
+
+structure CInv (t : Dc.StreamRecv.Trace) : Prop where
+  sub : ∀ sp pn, (sp, pn) ∈ t.committed → pn ∈ accOf t sp
+  nodup : t.committed.Nodup
+
+theorem cinv_step {t : Dc.StreamRecv.Trace} (hf : FInv t) (h : CInv t) (ev : Dc.StreamRecv.Ev) : CInv (t.step ev) := by
+  cases ev with
+  | packet now p =>
+    simp only [Dc.StreamRecv.Trace.step]
+    by_cases hc : (onStreamPacket t.recv now p).2.2 = true
+    · have hp := committed_passes t.recv now p hc
+      have hfresh := passes_fresh hf.stream hf.recovery p hp
+      simp only [hc, hp, if_true, Bool.true_and]
+      constructor
+      · intro sp pn hm
+        rcases List.mem_cons.mp hm with hm | hm
+        · cases hm
+          cases hsp : p.space <;> simp [accOf, hsp]
+        · have := h.sub sp pn hm
+          cases sp <;> simp only [accOf] at this ⊢
+          · split
+            · exact List.mem_cons_of_mem _ this
+            · exact this
+          · split
+            · exact List.mem_cons_of_mem _ this
+            · exact this
+      · refine List.nodup_cons.mpr ⟨?_, h.nodup⟩
+        intro hm
+        have := h.sub _ _ hm
+        cases hsp : p.space
+        · rw [hsp] at this; exact hfresh.1 hsp this
+        · rw [hsp] at this; exact hfresh.2 hsp this
+    · have hc' : (onStreamPacket t.recv now p).2.2 = false := by simpa using hc
+      simp only [hc', Bool.false_eq_true, if_false]
+      constructor
+      · intro sp pn hm
+        have := h.sub sp pn hm
+        cases sp <;> simp only [accOf] at this ⊢
+        · split
+          · exact List.mem_cons_of_mem _ this
+          · exact this
+        · split
+          · exact List.mem_cons_of_mem _ this
+          · exact this
+      · exact h.nodup
+  | read w => exact ⟨h.sub, h.nodup⟩
+  | timeout now last => exact ⟨h.sub, h.nodup⟩
+
+theorem committed_nodup (now it md w : Nat) (evs : List Dc.StreamRecv.Ev) :
+    (Dc.StreamRecv.run (Dc.StreamRecv.Trace.init now it md w) evs).committed.Nodup := by
+  have : ∀ (t : Dc.StreamRecv.Trace), FInv t → CInv t → CInv (Dc.StreamRecv.run t evs) := by
+    unfold Dc.StreamRecv.run
+    induction evs with
+    | nil => intro t _ h; exact h
+    | cons e es ih => intro t hf h; exact ih _ (finv_step hf e) (cinv_step hf h e)
+  exact (this _ (finv_init now it md w) ⟨(by intro sp pn hm; cases hm), List.nodup_nil⟩).nodup
+
+/-! ### a packet that fails authentication is a no-op -/
+
+theorem unauthentic_noop (r : Recv) (now : Nat) (p : Packet) (h : p.authentic = false) :
+    onStreamPacket r now p = (r, some .crypto, false) := by
+  have ha : authenticate r now p = (r, some .crypto) := by simp [authenticate, h]
+  have hi : onStreamPacketImpl r now p = (r, some .crypto, false) := by
+    unfold onStreamPacketImpl
+    rw [ha]
+    by_cases hm : (!decide (p.off + p.data.length ≤ r.maxData)) = true
+    · simp only [hm, if_true]
+    · simp only [hm, if_false]
+      cases RefBuf.write r.buf p.off p.data p.fin <;> rfl
+  unfold onStreamPacket
+  rw [hi]
+  simp [ErrKind.isFatal]
+
+/-! ### `DataRead` means the buffer was read to its end -/
+
+theorem onError_dataRead (r : Recv) (e : ErrKind) (l : Bool) (h : (onError r e l).state = .dataRead) :
+    r.state = .dataRead := by
+  unfold onError at h
+  revert h
+  cases hs : r.state <;> cases r.error <;> cases l <;>
+    simp [needsTransmission, silentShutdown, RState.onReset, RState.onAppReadReset]
+
+theorem afterDedupe_dataRead (r : Recv) (now : Nat) (p : Packet) (h : (afterDedupe r now p).1.state = .dataRead) :
+    r.state = .dataRead := by
+  have h0 : (armIdle (needsTransmission r) now p).state = r.state := by
+    unfold armIdle; split <;> rfl
+  unfold afterDedupe at h
+  cases hctl : p.control with
+  | none => rw [hctl] at h; exact h0 ▸ h
+  | undecodable => rw [hctl] at h; exact h0 ▸ h
+  | close t c => rw [hctl] at h; exact h0 ▸ (onError_dataRead _ _ _ h)
+
+theorem authenticate_dataRead (r : Recv) (now : Nat) (p : Packet) (h : (authenticate r now p).1.state = .dataRead) :
+    r.state = .dataRead := by
+  unfold authenticate at h
+  by_cases ha : p.authentic = true
+  · simp only [ha, Bool.not_true, Bool.false_eq_true, if_false] at h
+    unfold onCleartext at h
+    simp only at h
+    have hd := (dedupe_fields r p.space p.pn).2.2.1
+    by_cases hf : (dedupe r p.space p.pn).2 = true
+    · simp only [hf, Bool.not_true, Bool.false_eq_true, if_false] at h
+      exact hd ▸ afterDedupe_dataRead _ _ _ h
+    · have hf' : (dedupe r p.space p.pn).2 = false := by simpa using hf
+      simp only [hf', Bool.not_false, if_true] at h
+      exact hd ▸ h
+  · have ha' : p.authentic = false := by simpa using ha
+    simp only [ha', Bool.not_false, if_true] at h
+    exact h
+
+theorem write_complete {s s' : RefBuf} {off : Nat} {d : List Nat} {fin : Bool}
+    (hw : RefBuf.write s off d fin = .ok s') (hc : isReadingComplete s = true) : isReadingComplete s' = true := by
+  obtain ⟨_, hrej, hcons, hfs, _, _⟩ := write_ok_fields hw
+  unfold isReadingComplete at hc ⊢
+  have hf : s.finalSize = some s.consumed := by simpa using hc
+  rw [hfs, hcons]
+  cases fin with
+  | false => simpa using hf
+  | true =>
+    unfold rejectsFin at hrej
+    rw [hf] at hrej
+    simp only [if_true, ne_eq, Decidable.not_not] at hrej
+    simp [hrej]
+
+theorem pop_complete {s : RefBuf} (hi : Inv s) (w : Option Nat) (hc : isReadingComplete s = true) :
+    isReadingComplete (pop s w).1 = true := by
+  have hf : s.finalSize = some s.consumed := by simpa [isReadingComplete] using hc
+  have hlen : len s = 0 := by
+    by_cases h0 : len s = 0
+    · exact h0
+    · exfalso
+      have := len_spec_lt s s.consumed (Nat.le_refl _) (by omega)
+      have h1 := (hi.stored_lt _ this).2
+      have h2 := hi.final_ge _ hf
+      omega
+  rw [pop_eq]
+  have : popCount s w = 0 := by have := popCount_le s w; omega
+  rw [this]
+  unfold take isReadingComplete
+  simpa using hf
+
+/-- `DataRead` can only be entered through `on_read_buffer` on a buffer that is read to its end -/
+theorem impl_dataRead (r : Recv) (now : Nat) (p : Packet) (h : (onStreamPacketImpl r now p).1.state = .dataRead) :
+    r.state = .dataRead ∨ isReadingComplete (onStreamPacketImpl r now p).1.buf = true := by
+  unfold onStreamPacketImpl at h ⊢
+  cases ha : authenticate r now p with
+  | mk r' e =>
+    have hst : r'.state = .dataRead → r.state = .dataRead := by
+      intro hh; apply authenticate_dataRead r now p; rw [ha]; exact hh
+    rw [ha] at h
+    split
+    · rename_i hmd
+      simp only [hmd, if_true] at h
+      cases e with
+      | some e => exact Or.inl (hst h)
+      | none => exact Or.inl (hst (onError_dataRead _ _ _ h))
+    · rename_i hmd
+      simp only [hmd, if_false] at h
+      cases hw : RefBuf.write r.buf p.off p.data p.fin with
+      | error err =>
+        rw [hw] at h
+        cases e <;> exact Or.inl (hst h)
+      | ok b =>
+        rw [hw] at h
+        cases e with
+        | some e => exact Or.inl (hst h)
+        | none =>
+          simp only at h ⊢
+          have hf := onReadBuffer_frame { r' with buf := b }
+          rcases hf.2.2.2.2 h with h' | h'
+          · exact Or.inl (hst h')
+          · right; rw [hf.1.1]; exact h'
+
+theorem packet_dataRead (r : Recv) (now : Nat) (p : Packet) (h : (onStreamPacket r now p).1.state = .dataRead) :
+    r.state = .dataRead ∨ isReadingComplete (onStreamPacket r now p).1.buf = true := by
+  have hi := impl_dataRead r now p
+  unfold onStreamPacket at h ⊢
+  generalize onStreamPacketImpl r now p = res at hi h ⊢
+  obtain ⟨r', e, c⟩ := res
+  simp only at hi h ⊢
+  cases e with
+  | none => exact hi h
+  | some e =>
+    simp only at h ⊢
+    split
+    · rename_i hfat
+      simp only [hfat, if_true] at h
+      rw [(onError_same _ _ _).1]
+      exact hi (onError_dataRead _ _ _ h)
+    · rename_i hfat
+      simp only [hfat] at h
+      exact hi h
+
+theorem onTimeout_dataRead (r : Recv) (now last : Nat) (h : (onTimeout r now last).state = .dataRead) :
+    r.state = .dataRead := by
+  unfold onTimeout at h
+  by_cases h1 : timerExpired r.idleTimer now = true
+  · by_cases h2 : timerExpired (some (last + r.idleTimeout)) now = true
+    · simp only [h1, h2, Bool.not_true, Bool.false_eq_true, if_false] at h
+      unfold onIdleExpired at h
+      simp only at h
+      split at h
+      · exact h
+      · have := onError_dataRead _ _ _ h
+        revert this
+        cases r.state <;> simp [silentShutdown, RState.onReset, RState.onAppReadReset]
+    · have h2' : timerExpired (some (last + r.idleTimeout)) now = false := by simpa using h2
+      simp only [h1, h2', Bool.not_true, Bool.not_false, Bool.false_eq_true, if_false, if_true] at h
+      exact h
+  · have h1' : timerExpired r.idleTimer now = false := by simpa using h1
+    simp only [h1', Bool.not_false, if_true] at h
+    exact h
+
+theorem dinv_step {t : Dc.StreamRecv.Trace} (hr : RInv t)
+    (h : t.recv.state = .dataRead → isReadingComplete t.recv.buf = true) (ev : Dc.StreamRecv.Ev) :
+    (t.step ev).recv.state = .dataRead → isReadingComplete (t.step ev).recv.buf = true := by
+  cases ev with
+  | packet now p =>
+    simp only [Dc.StreamRecv.Trace.step]
+    intro hd
+    rcases packet_dataRead t.recv now p hd with h' | h'
+    · have hc := h h'
+      have hp := packet_fields t.recv now p
+      by_cases hcm : (onStreamPacket t.recv now p).2.2 = true
+      · exact write_complete (hp.2.2.2.2 hcm).2 hc
+      · have hcm' : (onStreamPacket t.recv now p).2.2 = false := by simpa using hcm
+        rw [hp.2.2.2.1 hcm']; exact hc
+    · exact h'
+  | read w =>
+    simp only [Dc.StreamRecv.Trace.step, Dc.StreamRecv.read]
+    intro hd
+    have hf := onReadBuffer_frame { t.recv with buf := (pop t.recv.buf w).1 }
+    rw [hf.1.1]
+    rcases hf.2.2.2.2 hd with h' | h'
+    · have hc := h h'
+      have hinv : Inv t.recv.buf := by rw [hr.buf]; exact (tinv_trace _).inv
+      exact pop_complete hinv w hc
+    · exact h'
+  | timeout now last =>
+    simp only [Dc.StreamRecv.Trace.step]
+    intro hd
+    rw [(onTimeout_same _ _ _).1]
+    exact h (onTimeout_dataRead _ _ _ hd)
+
+theorem dataRead_complete (now it md win : Nat) (evs : List Dc.StreamRecv.Ev)
+    (hd : (Dc.StreamRecv.run (Dc.StreamRecv.Trace.init now it md win) evs).recv.state = .dataRead) :
+    isReadingComplete (Dc.StreamRecv.run (Dc.StreamRecv.Trace.init now it md win) evs).recv.buf = true := by
+  have : ∀ (t : Dc.StreamRecv.Trace), RInv t → (t.recv.state = .dataRead → isReadingComplete t.recv.buf = true) →
+      ((Dc.StreamRecv.run t evs).recv.state = .dataRead → isReadingComplete (Dc.StreamRecv.run t evs).recv.buf = true) := by
+    clear hd
+    unfold Dc.StreamRecv.run
+    induction evs with
+    | nil => intro t _ h; exact h
+    | cons e es ih => intro t hr h; exact ih _ (rinv_step hr e) (dinv_step hr h e)
+  exact this _ (rinv_init now it md win) (by intro h; cases h) hd
+
+/-! ### the idle timer expires -/
+
+theorem idle_expires (r : Recv) (tnow last it : Nat) {lastArm : Nat} (ht : r.idleTimeout = it)
+    (hx : r.state.expectsData = true) (ha : r.idleTimer = some (lastArm + it)) (he : r.error = none)
+    (h1 : hasElapsed (lastArm + it) tnow = true) (h2 : hasElapsed (last + it) tnow = true) :
+    (onTimeout r tnow last).state = .resetRead ∧ (onTimeout r tnow last).error = some (.idleTimeout, true) ∧
+    checkError (onTimeout r tnow last) = some .idleTimeout ∧ (onTimeout r tnow last).idleTimer = none ∧
+    (onTimeout r tnow last).shouldTransmit = false := by
+  have e1 : timerExpired r.idleTimer tnow = true := by rw [ha]; exact h1
+  have e2 : timerExpired (some (last + r.idleTimeout)) tnow = true := by rw [ht]; exact h2
+  unfold onTimeout
+  simp only [e1, e2, Bool.not_true, Bool.false_eq_true, if_false]
+  unfold onIdleExpired
+  revert hx
+  cases hs : r.state <;>
+    simp [RState.expectsData, silentShutdown, onError, needsTransmission, RState.onReset, RState.onAppReadReset,
+      checkError, he, hs]
+
 end Quic.Proofs.DcStreamRecvLemmas
